@@ -429,7 +429,10 @@ func (g *gen) str() string {
 }
 
 var intPool = []int64{0, 1, -1, 7, 42, -2147483648, 2147483647, 100000}
-var floatPool = []float64{0, 1, -1, 0.5, -2.25, 1e21, 1e-7, 123456.789, 3.0e10, -1e-300, 1.7976931348623157e308, 5e-324}
+// incl. integral values whose magnitude is in [2^63, 1e21): encoding/json prints them as plain digits
+// (an Int literal beyond int64), which must still coerce to Float
+var floatPool = []float64{0, 1, -1, 0.5, -2.25, 1e21, 1e-7, 123456.789, 3.0e10, -1e-300, 1.7976931348623157e308, 5e-324,
+	1e19, 1.23456789e20, -18446744073709551616, 9223372036854775808, -9223372036854775808, 9.99e20, 4294967296}
 
 // value draws a value of type t, mostly in coercion normal form (what CoerceLiteral would produce
 // for the literal that denotes it: input objects carry every field that has a default); one in
@@ -640,6 +643,12 @@ func genSDef(r *hx.Rand, o genOpts) *SDef {
 		if r.Chance(1, 4) {
 			uf = union(uf, []string{hx.Pick(r, g.feat)})
 		}
+		if len(members[u]) >= 2 && r.Chance(1, 4) {
+			// a member more gated than its union ("conditional union member"): the unchanged
+			// schema.New refuses such a definition (counted as rejected); should a tree accept it,
+			// every oracle applies (possibleTypes must then list the visible members only)
+			uf = g.tfeat[members[u][0]]
+		}
 		if len(uf) == 0 {
 			uf = nil
 		}
@@ -695,6 +704,19 @@ func genSDef(r *hx.Rand, o genOpts) *SDef {
 			}
 			iv := g.inputVal(g.name("d", j), allowed, 1<<30)
 			g.inputs = saveInputs
+			if r.Chance(1, 3) {
+				// an enum nothing but directive arguments refers to (history.go gates it afterwards)
+				if d.typeByName("EnD") == nil {
+					add(TypeDef{Kind: "enum", Name: "EnD", Values: []EnumVal{{Name: "FAST"}, {Name: "SLOW", Depr: "slow"}}})
+				}
+				iv.Type = TRef{W: hx.Pick(r, []string{"", "N", "L", "LN"}), N: "EnD"}
+				iv.Def = nil
+				if r.Bool() && !iv.Type.nonNull() {
+					iv.Def = &Val{K: "null"}
+				} else if r.Bool() && iv.Type.W == "" {
+					iv.Def = &Val{K: "enum", S: "FAST"}
+				}
+			}
 			dd.Args = append(dd.Args, iv)
 		}
 		d.Dirs = append(d.Dirs, dd)
